@@ -314,6 +314,19 @@ func runC10(c *h.Ctx) {
 		if !lax && r.IntN(2) == 0 {
 			cond2 = g.Pred(1, true, false)
 		}
+		crossDoc := ""
+		if r.IntN(6) == 0 {
+			// a condition with an operand that is anchored outside the item
+			// but subscripted with a member of it: $.b[@.a], $arr[@.a] ...
+			prefix, cond, crossDoc = crossRef(r, false)
+			if r.IntN(3) == 0 {
+				// (the items have several members: nothing that expands them)
+				if extra := g.Pred(1, true, false); !exposesOrder(&gen.Path{Root: extra}) && !hasMethod(extra, "keyvalue") {
+					cond = &gen.N{K: gen.KBin, S: []string{"&&", "||"}[r.IntN(2)], A: cond, B: extra}
+				}
+			}
+			cond2 = nil
+		}
 		whole := &gen.N{K: gen.KFilter, A: cond, B: cond2}
 		d := dc
 		vars := stdVars
@@ -336,7 +349,11 @@ func runC10(c *h.Ctx) {
 			c.Skip("kept-iff-true", "keyvalue-ids-flow")
 			continue
 		}
-		checkFilter(c, &c10Case{lax: lax, prefix: prefix, cond: cond, cond2: cond2, doc: gen.Doc(r, d), useNum: r.IntN(2) == 0, tz: r.IntN(3) == 0, vars: vars})
+		docTxt := gen.Doc(r, d)
+		if crossDoc != "" {
+			docTxt = crossDoc
+		}
+		checkFilter(c, &c10Case{lax: lax, prefix: prefix, cond: cond, cond2: cond2, doc: docTxt, useNum: r.IntN(2) == 0, tz: r.IntN(3) == 0, vars: vars})
 	}
 	_ = strings.Join
 }
